@@ -169,6 +169,8 @@ type searchOpts struct {
 	AvoidRet func(rs *ast.ReturnStmt, val func(e ast.Expr) int8) bool
 	// FromEdge: the search starts on this branch edge; what the edge establishes is known from the start
 	FromEdge *Edge
+	// InitFacts: what is known at the start about boolean (value) / error (true = non-nil) locals
+	InitFacts map[types.Object]bool
 }
 
 func (f *FuncCFG) nodeBlocked(n ast.Node, o *searchOpts) bool {
@@ -373,6 +375,14 @@ func (f *FuncCFG) reach(from Point, o *searchOpts, target func(pt Point, atExit 
 			if ob := isBoolVar(ft.Atom); ob != nil {
 				initFacts[ob] = ft.Pol
 			}
+		}
+	}
+	if o != nil && len(o.InitFacts) > 0 && f.noConsist == 0 {
+		if initFacts == nil {
+			initFacts = map[types.Object]bool{}
+		}
+		for k, v := range o.InitFacts {
+			initFacts[k] = v
 		}
 	}
 	queue := []item{{from.B, from.I, nil, initFacts, nil}}
